@@ -496,21 +496,32 @@ class C13(runner.Check):
     level = "exploration"
     variant = "rel"
     watchdog_s = 60.0
-    rule = ("per specialisation: every tuple of scalar arguments (lengths 0..2 quick / 0..3 thorough, flags both ways, "
-            "positions incl. negatives) x every assignment of the array elements the Python definition reads (an element "
-            "becomes a choice point when first read; per-kind domains: small in-range values, -1, the extreme values of "
-            "the C type; offsets monotone, starts<=stops, one rule relaxed at a time), enumerated breadth-first by number "
-            "of non-default elements up to the per-specialisation case cap; each candidate is run through the definition "
-            "and through the compiled kernel (ctypes, buffers of exactly the touched extent between guard zones, every "
-            "filler/guard byte pattern). non-trivial = the definition wrote at least one output element or raised "
-            "ValueError; candidates are distinct by construction (distinct choice sequences of one specialisation).")
+    rule = ("classes A/B, per specialisation: every tuple of scalar arguments (lengths 0..3 quick / 0..4 thorough, flags both "
+            "ways, positions incl. negatives and kSliceNone) x every assignment of the array elements the Python definition "
+            "reads (an element becomes a choice point when first read; per-kind domains: small in-range values, -1, the "
+            "extreme values of the C type (2**32+1 for 64-bit index-like arguments); offsets monotone, starts<=stops, one "
+            "validity rule relaxed at a time where the definition itself raises for it), enumerated breadth-first by number "
+            "of non-default elements up to the per-specialisation cap; each candidate inside the contract is run through "
+            "the definition and through the compiled kernel (ctypes, buffers of the declared/touched extent between guard "
+            "zones, every filler/guard byte pattern) and status, written outputs, guard zones and const inputs are compared. "
+            "class C (+ class B with non-executable definition): role-aware bounded-exhaustive inputs, every specialisation "
+            "x every byte pattern; guards, const inputs, independence of the pattern, agreement of the specialisations. "
+            "non-trivial = the definition wrote an output element or raised ValueError (class C: the kernel wrote an output "
+            "or failed); candidates are distinct by construction (distinct choice sequences / inputs of one kernel).")
     assumptions = [
         "ctypes marshalling of the kernel ABI (struct Error returned by value) -- exercised by every call",
-        "a definition that reads an input outside the touched extent cap, divides by zero, reads an unwritten output or "
-        "loses precision in float()/int() is outside its contract (counted as skipped, DESIGN 3.2 i-ii)",
-        "argument kinds are inferred from argument names (model/kernelspec.py) because YAML roles only name test data sets",
-        "signed overflow in a compiled kernel is observed as wrap-around (gcc -O2); outputs are compared after C conversion",
-        "class C kernels (no Python definition) get guard-zone, crash and cross-specialisation checks only",
+        "a definition that reads an input outside its declared extent (or outside the touched-extent cap), divides by zero, "
+        "reads an unwritten output, loses precision in float()/int(), or exceeds 3000 array accesses is outside its contract "
+        "(counted as skipped, DESIGN 3.2 i-ii)",
+        "argument kinds and declared extents (lenarray for fromarray ...) are inferred from argument names "
+        "(model/kernelspec.py) because YAML roles only name the repository's test data sets",
+        "signed overflow in a compiled kernel is observed as wrap-around (gcc -O2); outputs are compared after C conversion; "
+        "64-bit index-like arguments take 2**32+1 instead of INT64_MAX as their huge member",
+        "float(x) in a definition is a C cast (usable in range()); a by-value call of awkward_regularize_rangeslice in a "
+        "definition is read as the by-reference call of the C source, with Python's slice.indices as its meaning",
+        "class C kernels (no Python definition) get guard-zone, crash, pattern-independence and cross-specialisation checks only; "
+        "reads outside an extent are seen only when the result depends on them (no sanitizer on ctypes buffers)",
+        "known crash findings are re-executed in a forked child on every run (quarantine field of known_findings.json)",
     ]
 
     def __init__(self):
